@@ -5,9 +5,10 @@
    table) /\ 0 < xi < xi_max /\ MPC >= mpc_lim /\ MPD <= mpd_lim /\ (covariances present -> Fn_cov < cov_max)";
    [tbl_spec K t0 t i o] = "forall v, cell t i o = Some v <-> cell t0 i o = Some v /\ K" (None = nan). *)
 From Coq Require Import List Arith ZArith QArith Bool Lia.
-From PyOMA.Base Require Import Argmin.
-From PyOMA.Model Require Import M_hc.
-From PyOMA.Proofs Require Import P_hc.
+From Coq Require Import Qcanon Field.
+From PyOMA.Base Require Import Argmin Carrier Cplx.
+From PyOMA.Model Require Import M_hc M_indicators M_hc_inst.
+From PyOMA.Proofs Require Import P_hc P_hc_inst.
 Import ListNotations.
 Open Scope Q_scope.
 
@@ -91,6 +92,127 @@ Theorem C09_shape_pl : forall (h:hcrit) (s:pl_tabs E), wf_pl E s = true ->
 Proof. exact (hc_shape_pl E mpc mpd). Qed.
 End S.
 
+(* ---------------------------------------------------------------------------------------------------------------
+   Order axis.  [sel_ssi sel s] = the table set whose column j is column sel[j] of s, for ANY list sel of orders
+   (0, step, 2*step, ...; gaps; permuted; repeated).  [cell_spec K c0 c] = "forall v, c = Some v <-> c0 = Some v /\ K". *)
+Section O.
+Variable E : Type.
+Variable EC : Type.
+Variable mpc mpd : list (option E) -> option Q.
+
+(* column j of every table returned for the orders sel holds exactly the poles of order n = sel[j] of the unfiltered
+   solution that meet the criteria: damping, MPC, MPD and covariance of the pole itself - no reference to the labels n, j
+   or to any other column - and the conjugate criterion among the eigenvalues handed over *)
+Theorem C09_sound_complete_ssi_sel : forall (h:hcrit) (s:ssi_tabs E EC) (sel:list nat), cols_ok sel (sPhi s) ->
+  forall i j n, nth_error sel j = Some n ->
+  let r := run_ssi E EC mpc mpd h (sel_ssi sel s) in
+  let K := (hc_conj_on h = true -> has_conj (sel_cols None sel (sLam s)) i j) /\ ssi_other E EC mpc mpd h s i n in
+  cell_spec K (cell (sFn s) i n) (cell (sFn r) i j) /\ cell_spec K (cell (sXi s) i n) (cell (sXi r) i j)
+  /\ (forall k, cell_spec K (cell3 (sPhi s) i n k) (cell3 (sPhi r) i j k))
+  /\ cell_spec K (cell (sLam s) i n) (cell (sLam r) i j) /\ ocell_spec K (sXiC s) (sXiC r) i n j.
+Proof. exact (hc_sound_complete_ssi_sel E EC mpc mpd). Qed.
+
+(* when the conjugate of a pole sits in the column of the pole (one eigenvalue problem per order), running the criteria
+   on any selection of orders gives the restriction of the full result: K is the criterion of C09_sound_complete_ssi *)
+Theorem C09_sound_complete_ssi_orders : forall (h:hcrit) (s:ssi_tabs E EC) (sel:list nat), cols_ok sel (sPhi s) ->
+  conj_local (sLam s) -> forall i j n, nth_error sel j = Some n ->
+  let r := run_ssi E EC mpc mpd h (sel_ssi sel s) in
+  let K := ssi_keep E EC mpc mpd h s i n in
+  cell_spec K (cell (sFn s) i n) (cell (sFn r) i j) /\ cell_spec K (cell (sXi s) i n) (cell (sXi r) i j)
+  /\ (forall k, cell_spec K (cell3 (sPhi s) i n k) (cell3 (sPhi r) i j k))
+  /\ cell_spec K (cell (sLam s) i n) (cell (sLam r) i j) /\ ocell_spec K (sXiC s) (sXiC r) i n j.
+Proof. exact (hc_sound_complete_ssi_orders E EC mpc mpd). Qed.
+
+Theorem C09_sound_complete_pl_sel : forall (h:hcrit) (s:pl_tabs E) (sel:list nat), cols_ok sel (pPhi s) ->
+  forall i j n, nth_error sel j = Some n ->
+  let r := run_pl E mpc mpd h (sel_pl sel s) in
+  let K := (hc_conj_on h = true -> has_conj (sel_cols None sel (pLam s)) i j) /\ pl_other E mpc mpd h s i n in
+  cell_spec K (cell (pFn s) i n) (cell (pFn r) i j) /\ cell_spec K (cell (pXi s) i n) (cell (pXi r) i j)
+  /\ (forall k, cell_spec K (cell3 (pPhi s) i n k) (cell3 (pPhi r) i j k)).
+Proof. exact (hc_sound_complete_pl_sel E mpc mpd). Qed.
+End O.
+
+(* ---------------------------------------------------------------------------------------------------------------
+   Indicators instantiated.  Generic carrier (every field): gen.MPC (np.cov + eigenvalues, Model/M_indicators.v) and the
+   arccos arguments of gen.MPD do not see the sign of the imaginary part of the shape; [vconj] = entry-wise conjugate. *)
+Theorem C09_mpc_conj : forall (R:Type) (K:Ops R),
+  field_theory (o0 K) (o1 K) (oadd K) (omul K) (osub K) (oopp K) (odiv K) (oinv K) (@eq R) ->
+  forall (isz:R -> bool) (n:nat) (phi:cvec R),
+  mpc_o K isz n (vconj R K phi) = mpc_o K isz n phi /\ forall f, mpc_f K f n (vconj R K phi) = mpc_f K f n phi.
+Proof. exact (fun R K Fth isz n phi => conj (mpc_o_conj R K Fth isz n phi) (fun f => mpc_f_conj R K Fth f n phi)). Qed.
+
+(* the (weight^2, cosine^2) terms of gen.MPD for the conjugate shape and the mirrored singular vector (v0, -v1), or any
+   non-zero multiple of it, are those of the shape with (v0, v1) *)
+Theorem C09_mpd_terms_conj : forall (R:Type) (K:Ops R),
+  field_theory (o0 K) (o1 K) (oadd K) (omul K) (osub K) (oopp K) (odiv K) (oinv K) (@eq R) ->
+  forall (leb:R -> R -> bool) (isz:R -> bool), (forall x, isz x = true <-> x = o0 K) ->
+  forall (n:nat) (phi:cvec R) (c v0 v1:R), c <> o0 K -> oadd K (omul K v0 v0) (omul K v1 v1) <> o0 K ->
+  mpd_terms K leb isz n (vconj R K phi) (omul K c v0) (oopp K (omul K c v1)) = mpd_terms K leb isz n phi v0 v1.
+Proof. exact mpd_terms_conj. Qed.
+
+(* table cells: shapes are lists of optional Gaussian rationals; [mpc_inst], [mpd_inst sv2 sqrtf acosf] are gen.MPC / gen.MPD
+   as HC_phi_comp sees them (None = nan or raised).  sv2 = np.linalg.svd (second right-singular vector), sqrtf / acosf =
+   np.sqrt / np.arccos: ANY functions; the only contract used is that the vector returned for [Re, -Im] is a non-zero
+   multiple of the mirror image of the one returned for [Re, Im], neither being the null vector. *)
+Theorem C09_indicators_conj_inst : forall (v:shape),
+  mpc_inst (conj_shape v) = mpc_inst v /\
+  forall (sv2:list QcCplx -> Qc * Qc) (sqrtf acosf:Qc -> Qc),
+  (forall x, qc_nz2 (sv2 x)) ->
+  (forall x, exists c:Qc, c <> 0%Qc /\ sv2 (map cj x) = ((c * fst (sv2 x))%Qc, (- (c * snd (sv2 x)))%Qc)) ->
+  mpd_inst sv2 sqrtf acosf (conj_shape v) = mpd_inst sv2 sqrtf acosf v.
+Proof. exact (fun v => conj (mpc_inst_conj v) (fun sv2 sq ac H1 H2 => mpd_inst_conj sv2 sq ac H1 H2 v)). Qed.
+
+(* ac2mp's damping ratio -(Re lam / abs lam) of the conjugate eigenvalue: abs = any function blind to the sign of Im *)
+Theorem C09_damping_conj : forall (absf:cplx -> Q), (forall z z', ceq z' (cconjq z) -> absf z' == absf z) ->
+  forall z z', ceq z' (cconjq z) -> oqeq (xi_of absf z') (xi_of absf z).
+Proof. exact xi_of_conj. Qed.
+
+(* conjugate closure WITHOUT any assumption on how the criteria decide: the unfiltered tables are as SSI_poles builds
+   them - Xi is the damping of Lambds cell by cell ([xi_table]); every pole whose conjugate occurs in Lambds has a mirror
+   image in the tables: conjugate eigenvalue, conjugate shape, same frequency covariance ([mirror_ssi]) - and then every
+   eigenvalue left in the returned table has its conjugate left in the returned table, for all criteria values *)
+Theorem C09_conj_closed_ssi_inst : forall (EC:Type) (absf:cplx -> Q) (sv2:list QcCplx -> Qc * Qc) (sqrtf acosf:Qc -> Qc),
+  (forall z z', ceq z' (cconjq z) -> absf z' == absf z) ->
+  (forall x, qc_nz2 (sv2 x)) ->
+  (forall x, exists c:Qc, c <> 0%Qc /\ sv2 (map cj x) = ((c * fst (sv2 x))%Qc, (- (c * snd (sv2 x)))%Qc)) ->
+  forall (h:hcrit) (s:ssi_tabs QcCplx EC), hc_conj_on h = true ->
+  xi_table absf (sLam s) (sXi s) -> mirror_ssi s ->
+  let r := run_ssi QcCplx EC mpc_inst (mpd_inst sv2 sqrtf acosf) h s in
+  forall i o z, cell (sLam r) i o = Some z -> exists i' o' z', cell (sLam r) i' o' = Some z' /\ ceq z' (cconjq z).
+Proof. exact (fun EC absf sv2 sq ac H1 H2 H3 => hc_conj_closed_ssi_inst absf sv2 sq ac H1 H2 H3 EC). Qed.
+
+Theorem C09_conj_closed_pl_inst : forall (absf:cplx -> Q) (sv2:list QcCplx -> Qc * Qc) (sqrtf acosf:Qc -> Qc),
+  (forall z z', ceq z' (cconjq z) -> absf z' == absf z) ->
+  (forall x, qc_nz2 (sv2 x)) ->
+  (forall x, exists c:Qc, c <> 0%Qc /\ sv2 (map cj x) = ((c * fst (sv2 x))%Qc, (- (c * snd (sv2 x)))%Qc)) ->
+  forall (h:hcrit) (s:pl_tabs QcCplx), hc_conj_on h = true ->
+  xi_table absf (pLam s) (pXi s) -> mirror_pl s ->
+  forall i o, pl_keep QcCplx mpc_inst (mpd_inst sv2 sqrtf acosf) h s i o ->
+  exists z i' o' z', cell (pLam s) i o = Some z /\ cell (pLam s) i' o' = Some z' /\ ceq z' (cconjq z)
+                     /\ pl_keep QcCplx mpc_inst (mpd_inst sv2 sqrtf acosf) h s i' o'.
+Proof. exact hc_conj_closed_pl_inst. Qed.
+
+(* the mirror-image hypothesis in executable form: [mirror_ssib nr nc s] / [mirror_plb nr nc s] (every defined eigenvalue cell
+   lies inside nr x nc; every pole whose conjugate occurs has a cell with the conjugate eigenvalue, the entry-wise conjugate
+   shape and an equal frequency covariance) is evaluated by the harness on unfiltered tables of real runs *)
+Theorem C09_mirror_structure_sound : forall (EC:Type) (nr nc:nat),
+  (forall s:ssi_tabs QcCplx EC, mirror_ssib nr nc s = true -> mirror_ssi s) /\
+  (forall s:pl_tabs QcCplx, mirror_plb nr nc s = true -> mirror_pl s).
+Proof. exact (fun EC nr nc => conj (mirror_ssib_sound EC nr nc) (mirror_plb_sound nr nc)). Qed.
+
+(* "the other criteria decide alike for a pole and its mirror image" is now a theorem (it was a hypothesis of
+   C09_conj_closed_ssi) *)
+Theorem C09_decide_alike_ssi : forall (EC:Type) (absf:cplx -> Q) (sv2:list QcCplx -> Qc * Qc) (sqrtf acosf:Qc -> Qc),
+  (forall z z', ceq z' (cconjq z) -> absf z' == absf z) ->
+  (forall x, qc_nz2 (sv2 x)) ->
+  (forall x, exists c:Qc, c <> 0%Qc /\ sv2 (map cj x) = ((c * fst (sv2 x))%Qc, (- (c * snd (sv2 x)))%Qc)) ->
+  forall (h:hcrit) (s:ssi_tabs QcCplx EC) i o i' o',
+  xi_table absf (sLam s) (sXi s) -> mirror_cell (sLam s) (sPhi s) i o i' o' ->
+  (forall F, sFnC s = Some F -> oqeq (cell F i' o') (cell F i o)) ->
+  ssi_other QcCplx EC mpc_inst (mpd_inst sv2 sqrtf acosf) h s i o ->
+  ssi_other QcCplx EC mpc_inst (mpd_inst sv2 sqrtf acosf) h s i' o'.
+Proof. exact (fun EC absf sv2 sq ac H1 H2 H3 => ssi_other_mirror absf sv2 sq ac H1 H2 H3 EC). Qed.
+
 Print Assumptions C09_call_sites.
 Print Assumptions C09_sound_complete_ssi.
 Print Assumptions C09_sound_complete_ssi_cov.
@@ -101,6 +223,17 @@ Print Assumptions C09_sound_complete_pl.
 Print Assumptions C09_joint_nan_pl.
 Print Assumptions C09_conj_closed_pl.
 Print Assumptions C09_shape_pl.
+Print Assumptions C09_sound_complete_ssi_sel.
+Print Assumptions C09_sound_complete_ssi_orders.
+Print Assumptions C09_sound_complete_pl_sel.
+Print Assumptions C09_mpc_conj.
+Print Assumptions C09_mpd_terms_conj.
+Print Assumptions C09_indicators_conj_inst.
+Print Assumptions C09_damping_conj.
+Print Assumptions C09_conj_closed_ssi_inst.
+Print Assumptions C09_conj_closed_pl_inst.
+Print Assumptions C09_decide_alike_ssi.
+Print Assumptions C09_mirror_structure_sound.
 
 (* ---------------------------------------------------------------------------------------------------------------
    Non-vacuity.  2 rows x 6 orders, 2 channels, shapes as tokens, indicator values listed per cell (row-major).
@@ -176,4 +309,86 @@ Example C09_example_zero_cov :
               sFnC := Some [[Some (0#1)]]; sXiC := Some [[Some (1#50)]]; sPhiC := @None (tbl3 nat) |} in
   let r := run_ssi nat nat (tok_ind 2 [Some (9#10)]) (tok_ind 2 [Some (1#10)]) ex_h s in
   cell (sFn r) 0 0 = Some (1#1) /\ option_map (fun F => cell F 0 0) (sFnC r) = Some None.
+Proof. vm_compute. split; reflexivity. Qed.
+
+(* ---------------------------------------------------------------------------------------------------------------
+   Non-vacuity of the instantiated theorems.  2 rows x 2 orders, 3 channels, shapes as Gaussian rationals.
+   order 0: a conjugate pair with conjugate shapes; order 1: a real eigenvalue with a real shape (its own mirror image)
+   and a pole without conjugate.  abs := |z|^2, sv2 := the constant vector (0,1), sqrt := id, arccos := 1 - x
+   (the theorems hold for every choice; these are rational stand-ins so that the run can be evaluated). *)
+Definition qh (a:Z) (b:positive) : Qc := Q2Qc (a # b).
+Definition ex2_v : shape := [Some (qh 1 1, qh 0 1); Some (qh 1 2, qh 1 4); Some (qh (-1) 2, qh 1 4)].
+Definition ex2_w : shape := [Some (qh 1 1, qh 0 1); Some (qh 1 2, qh 0 1); Some (qh (-1) 1, qh 0 1)].
+Definition ex2_u : shape := [Some (qh 1 1, qh 1 1); Some (qh 1 2, qh (-1) 1); Some (qh 0 1, qh 1 3)].
+Definition ex2_abs (z:cplx) : Q := fst z * fst z + snd z * snd z.
+Definition ex2_sv2 (x:list QcCplx) : Qc * Qc := (qh 0 1, qh 1 1).
+Definition ex2_sqrt (x:Qc) : Qc := x.
+Definition ex2_acos (x:Qc) : Qc := (1 - x)%Qc.
+Definition ex2_s : ssi_tabs QcCplx nat :=
+  {| sFn := [[Some (1#1); Some (2#1)]; [Some (1#1); Some (3#1)]];
+     sXi := [[Some (1#5); Some (1#2)]; [Some (1#5); Some (2#13)]];
+     sPhi := [[ex2_v; ex2_w]; [conj_shape ex2_v; ex2_u]];
+     sLam := [[Some (-1#1, 2#1); Some (-2#1, 0#1)]; [Some (-1#1, -2#1); Some (-2#1, 3#1)]];
+     sFnC := Some [[Some (1#100); Some (1#50)]; [Some (1#100); Some (1#25)]];
+     sXiC := Some [[Some (1#10); Some (1#10)]; [Some (1#10); Some (1#10)]]; sPhiC := None |}.
+Definition ex2_h : hcrit := {| hc_conj_on := true; hc_xi_max := 3#5; hc_mpc_lim := 1#2; hc_mpd_lim := 1#2; hc_cov_max := 1#30 |}.
+Definition ex2_run := run_ssi QcCplx nat mpc_inst (mpd_inst ex2_sv2 ex2_sqrt ex2_acos) ex2_h ex2_s.
+Definition ex2_run_sel := run_ssi QcCplx nat mpc_inst (mpd_inst ex2_sv2 ex2_sqrt ex2_acos) ex2_h (sel_ssi [1%nat; 0%nat; 1%nat] ex2_s).
+
+(* the kernel contracts and the table-structure hypotheses of C09_conj_closed_ssi_inst hold on this instance *)
+Example C09_example_inst_hyps :
+  (forall z z', ceq z' (cconjq z) -> ex2_abs z' == ex2_abs z) /\
+  (forall x, qc_nz2 (ex2_sv2 x)) /\
+  (forall x, exists c:Qc, c <> 0%Qc /\ ex2_sv2 (map cj x) = ((c * fst (ex2_sv2 x))%Qc, (- (c * snd (ex2_sv2 x)))%Qc)) /\
+  xi_table ex2_abs (sLam ex2_s) (sXi ex2_s) /\ mirror_ssi ex2_s /\
+  cols_ok [1%nat; 0%nat; 1%nat] (sPhi ex2_s) /\ conj_local (sLam ex2_s).
+Proof.
+  split; [|split; [|split; [|split; [|split; [|split]]]]].
+  - intros z z' [H1 H2]. unfold ex2_abs. cbn [cconjq fst snd] in H1, H2. rewrite H1, H2. ring.
+  - intros x H. vm_compute in H. discriminate H.
+  - intros x. exists (qh (-1) 1). split; [intros H; vm_compute in H; discriminate H|].
+    unfold ex2_sv2. cbn [fst snd]. f_equal; apply Qc_is_canon; vm_compute; reflexivity.
+  - intros i o z Hz.
+    destruct i as [|[|i]]; destruct o as [|[|o]]; vm_compute in Hz; try discriminate Hz;
+    try (destruct i; vm_compute in Hz; discriminate Hz); try (destruct o; vm_compute in Hz; discriminate Hz);
+    inversion Hz; subst z; vm_compute; reflexivity.
+  - intros i o Hc. apply conj_okb_iff in Hc.
+    destruct i as [|[|i]]; destruct o as [|[|o]]; vm_compute in Hc; try discriminate Hc;
+    try (destruct i; vm_compute in Hc; discriminate Hc); try (destruct o; vm_compute in Hc; discriminate Hc).
+    + exists 1%nat, 0%nat. split.
+      * exists (-1#1, 2#1), (-1#1, -2#1), ex2_v. repeat split; reflexivity.
+      * intros F HF. inversion HF; subst F. vm_compute. reflexivity.
+    + exists 0%nat, 1%nat. split.
+      * exists (-2#1, 0#1), (-2#1, 0#1), ex2_w. repeat split; reflexivity.
+      * intros F HF. inversion HF; subst F. vm_compute. reflexivity.
+    + exists 0%nat, 0%nat. split.
+      * exists (-1#1, -2#1), (-1#1, 2#1), (conj_shape ex2_v). repeat split; reflexivity.
+      * intros F HF. inversion HF; subst F. vm_compute. reflexivity.
+  - intros r n Hr Hn. cbn in Hr, Hn. destruct Hr as [<-|[<-|[]]]; destruct Hn as [<-|[<-|[<-|[]]]]; cbn; lia.
+  - intros i o Hc. apply conj_okb_iff in Hc.
+    destruct i as [|[|i]]; destruct o as [|[|o]]; vm_compute in Hc; try discriminate Hc;
+    try (destruct i; vm_compute in Hc; discriminate Hc); try (destruct o; vm_compute in Hc; discriminate Hc).
+    + exists (-1#1, 2#1), 1%nat, (-1#1, -2#1). repeat split; reflexivity.
+    + exists (-2#1, 0#1), 0%nat, (-2#1, 0#1). repeat split; reflexivity.
+    + exists (-1#1, -2#1), 0%nat, (-1#1, 2#1). repeat split; reflexivity.
+Qed.
+
+(* the pair and the real pole survive in every table with unchanged values, the pole without conjugate goes; on the
+   order columns [1;0;1] the result is the same poles, relabelled *)
+Example C09_example_inst_run :
+  let keep := [[true;true];[true;false]] in
+  pat (sFn ex2_run) = keep /\ pat (sLam ex2_run) = keep /\ option_map pat (sFnC ex2_run) = Some keep
+  /\ cell (sLam ex2_run) 1 0 = Some (-1#1, -2#1) /\ vget (sPhi ex2_run) 1 0 = Some (conj_shape ex2_v)
+  /\ map (map mpc_inst) (sPhi ex2_s) = [[Some (793 # 841); Some 1]; [Some (793 # 841); Some (8521 # 19321)]]
+  /\ map (map (mpd_inst ex2_sv2 ex2_sqrt ex2_acos)) (sPhi ex2_s) = [[Some (1 # 13); Some 0]; [Some (1 # 13); Some (76 # 121)]]
+  /\ pat (sFn ex2_run_sel) = [[true;true;true];[false;true;false]]
+  /\ cell (sLam ex2_run_sel) 1 1 = Some (-1#1, -2#1).
+Proof. vm_compute. repeat split; reflexivity. Qed.
+
+(* the executable form of the mirror-image hypothesis holds on the instance (and fails when one shape of the pair is not
+   the conjugate of the other) *)
+Example C09_example_mirrorb :
+  mirror_ssib 2 2 ex2_s = true /\
+  mirror_ssib 2 2 {| sFn := sFn ex2_s; sXi := sXi ex2_s; sPhi := [[ex2_v; ex2_w]; [ex2_v; ex2_u]]; sLam := sLam ex2_s;
+                     sFnC := sFnC ex2_s; sXiC := sXiC ex2_s; sPhiC := sPhiC ex2_s |} = false.
 Proof. vm_compute. split; reflexivity. Qed.
